@@ -104,6 +104,8 @@ native_unit("security_native", "winter-air", "air", "native/security_bounded.rs"
 
 verus_unit("divisorv", "divisorv", ["C16", "C17"], [
     "TransitionConstraints::new (every number of main / auxiliary constraints: the first num_main composition coefficients go to the main constraints, the following num_aux to the auxiliary ones, the degrees are the context's, the divisor is from_transition(trace length, the context's exemption count); the assertion is the documented pre-condition)",
+    "ConstraintDivisor::from_transition (every domain size n and exemption count k <= n: numerator x^n - 1, exemption points g^(n-k) .. g^(n-1) in order; the map / collect over the step range is an assumed std contract, get_trace_domain_value_at's own contract is proved)",
+    "theorem_transition_zero_set (specification level: on the trace domain x^n - 1 vanishes at every step and the exemption factor of step j vanishes exactly at step j, so the transition divisor vanishes on exactly the steps 0 .. n - k - 1 - relative to 'g has order exactly n')",
     "ConstraintDivisor::from_assertion (every power-of-two trace length, every validated single / periodic / sequence assertion: the divisor is x^k - g^(k * first_step) with k the number of asserted steps and no exemptions; k * first_step stays inside the trace domain)",
     "divisor::get_trace_domain_value_at (g^step for the trace-domain generator; its debug assertion holds at every call)",
     "ConstraintDivisor::new",
